@@ -500,6 +500,39 @@ func init() {
 		}
 		return Str{S: ""}
 	})
+	reg("(*reflect.rtype).PkgPath", func(in *Interp, fr *frame, call *ssa.CallCommon, args []Value) Value {
+		t := rt(in, args[0])
+		if t.Sym != nil {
+			return Str{S: ""} // an unnamed struct type
+		}
+		if n, ok := t.T.(*types.Named); ok && n.Obj().Pkg() != nil {
+			return Str{S: n.Obj().Pkg().Path()}
+		}
+		return Str{S: ""}
+	})
+	reg("(reflect.StructTag).Lookup", func(in *Interp, fr *frame, call *ssa.CallCommon, args []Value) Value {
+		tag := args[0].(Str)
+		key := in.mustConcStr(args[1], "tag key")
+		if tag.Opq != nil && tag.Opq.Tag != nil {
+			f := tag.Opq.Tag
+			switch key {
+			case "api":
+				if f.HasAPI {
+					return Tuple{f.API, in.Ctx.T}
+				}
+			case "json":
+				if f.HasJSON {
+					return Tuple{f.JSON, in.Ctx.T}
+				}
+			}
+			return Tuple{Str{}, in.Ctx.F}
+		}
+		if !tag.IsConc() {
+			in.unsupported("StructTag.Lookup on a symbolic tag string")
+		}
+		v, ok := reflect.StructTag(tag.S).Lookup(key)
+		return Tuple{Str{S: v}, in.Ctx.Bool(ok)}
+	})
 	reg("(*reflect.rtype).Elem", func(in *Interp, fr *frame, call *ssa.CallCommon, args []Value) Value {
 		t := rt(in, args[0])
 		switch u := t.T.Underlying().(type) {
